@@ -1,5 +1,5 @@
 (* C32 -- the checkpoint array of iterative_build_tree: bit arithmetic, for every step number. *)
-From Coq Require Import ZArith NArith List Bool Lia.
+From Coq Require Import ZArith NArith List Bool Lia FinFun.
 Import ListNotations.
 Require Import NV.C32.Model.
 Local Open Scope N_scope.
@@ -210,7 +210,7 @@ Qed.
 (* ---- momentum refresh: every leaf gets its own sub-key ---- *)
 Lemma leaf_keys_NoDup n : NoDup (leaf_keys n).
 Proof.
-  unfold leaf_keys. apply FinFun.Injective_map_NoDup; [|apply seq_NoDup].
+  unfold leaf_keys. apply Injective_map_NoDup; [|apply seq_NoDup].
   intros a b H. apply Nat2Z.inj. exact H.
 Qed.
 Lemma leaf_keys_length n : length (leaf_keys n) = n.
